@@ -509,5 +509,41 @@ func runC15(res *lib.Result, tier string, seed int64, args []string) error {
 		sess.Close()
 		os.RemoveAll(dir)
 	}
+	return c15ClassVariable(res)
+}
+
+// fixed world (every tier): a class whose comment block stands over a declaration of SEVERAL variables is the class of
+// the first one; the members assigned through that variable are members of the class, the members of the other
+// variable are not reached through it
+func c15ClassVariable(res *lib.Result) error {
+	src := "---@class FooZ\n---@field az number\nlocal FooZ, UtilZ = {}, {}\nfunction FooZ.barz() end\nfunction UtilZ.helperz() end\n\n---@type FooZ\nlocal vz = nil\nlocal q2 = vz.barz\nlocal q3 = vz.az\nprint(q2, q3)\n"
+	dir := lib.ScratchDir("c15cv")
+	defer os.RemoveAll(dir)
+	if err := lib.WriteWorkspace(dir, map[string]string{"main.lua": src}); err != nil {
+		return err
+	}
+	sess, err := lib.StartSession(dir, lib.AllChecksOptions())
+	if err != nil {
+		return err
+	}
+	defer sess.Close()
+	sess.DidOpen("main.lua", src)
+	sess.Sync()
+	res.Count("class-variable-world", true)
+	res.Dist("definition.member-assigned-through-the-class-variable")
+	for _, q := range [][3]int{{8, 14, 3}, {9, 14, 1}} { // vz.barz → line 3 (function FooZ.barz), vz.az → line 1 (---@field az)
+		locs, err := sess.Definition("main.lua", q[0], q[1])
+		if err != nil {
+			res.AddViolation("crash-or-timeout", err.Error(), src, false)
+			return nil
+		}
+		got := "-"
+		if len(locs) > 0 {
+			got = fmt.Sprintf("%s:%d", sess.Rel(locs[0].URI), locs[0].Range.Start.Line)
+		}
+		if want := fmt.Sprintf("main.lua:%d", q[2]); got != want {
+			res.AddViolation("impl-vs-spec", fmt.Sprintf("go-to-definition on the member at %d:%d leads to %s, its declaration is at %s", q[0], q[1], got, want), src, false)
+		}
+	}
 	return nil
 }
